@@ -133,18 +133,11 @@ MUTANTS = [
 	case SupervisorStrategyTransient:""", 1),
 # ---------------- C17
 ("C17", "m3-start-failure-members-left-running", "node/application.go",
- """		if err != nil {
-			a.group.Range(func(pid gen.PID, _ bool) bool {
+ """			for _, pid := range a.members() {
 				a.node.Kill(pid)
-				return true
-			})
-			atomic.StoreInt32(&a.state, int32(gen.ApplicationStateLoaded))
-			return err
-		}""",
- """		if err != nil {
-			atomic.StoreInt32(&a.state, int32(gen.ApplicationStateLoaded))
-			return err
-		}""", 1),
+			}
+""",
+ """""", 1),
 ("C17", "m3-permanent-reason-not-recorded", "node/application.go",
  """		a.node.Log().Info("application %s (%s) will be stopped due to termination of %s with reason: %s", a.spec.Name, a.mode, pid, reason)
 		a.reason = reason
